@@ -5,6 +5,8 @@
 import CedarProofs.Roundtrip
 import CedarProofs.CodecStr
 import CedarProofs.Incremental
+import CedarProofs.CodecLarge
+import CedarProofs.Buffered
 
 namespace Cedar.C01
 
@@ -149,6 +151,37 @@ theorem write_emits_buffer (s s' : Stream) (d : Bytes) (fs : List WireFrame)
       obtain ⟨rfl, rfl⟩ := h
       left; exact ⟨rfl, rfl⟩
 
+/-- **buffered_roundtrip_plain**: the buffered writer composed with the round trip. Any sequence of
+    messages, each assembled by `StartMessage`, any number of `WriteMessage` calls of any sizes
+    (flushing a partial frame whenever 4 KiB are buffered) and `EndMessage`, all accepted by the
+    sender on a plaintext stream, is returned by the receiver's `ReceiveCompleteMessage` loop as
+    exactly one message per `EndMessage`: the concatenation of that message's writes — same bytes,
+    same boundaries, nothing extra (`write_emits_buffer` is the single-step fact; this is the whole
+    pipeline). -/
+theorem buffered_roundtrip_plain (S S' R : Stream) (msgs : List (List Bytes)) (sent : List WireFrame)
+    (hS : S.crypting = false) (hR : R.crypting = false)
+    (hsend : S.sendBufferedAll msgs = .ok (S', sent)) :
+    R.deliver sent = msgs.map List.flatten := by
+  obtain ⟨ops, t, hfl, hs, hm⟩ := sendBufferedAll_spec msgs S S' sent hsend
+  have hc : (S.withSend [] false).crypting = false := by
+    simpa [Stream.crypting, Stream.withSend] using hS
+  rw [← hm]
+  exact messages_roundtrip_plain (S.withSend [] false) t R ops sent hc hR hfl hs
+
+/-- **buffered_roundtrip_encrypted**: the same on an AES-GCM stream (hypotheses as in
+    `messages_roundtrip_encrypted`): every buffered message the sender accepts arrives as one
+    message, the concatenation of its writes, whatever the pattern of writes and flushes. -/
+theorem buffered_roundtrip_encrypted (S S' R : Stream) (k : Nat) (ivS ivR : IV) (msgs : List (List Bytes))
+    (sent : List WireFrame) (hdig : (R.dig.fr, R.dig.fs) = (S.dig.fs, S.dig.fr)) (hne : ivS ≠ ivR)
+    (hsend : (S.setKey k ivS).sendBufferedAll msgs = .ok (S', sent)) :
+    (R.setKey k ivR).deliver sent = msgs.map List.flatten := by
+  obtain ⟨ops, t, hfl, hs, hm⟩ := sendBufferedAll_spec msgs _ S' sent hsend
+  have he : (S.setKey k ivS).withSend [] false = (S.withSend [] false).setKey k ivS := by
+    cases S; rfl
+  rw [he] at hs
+  rw [← hm]
+  exact messages_roundtrip_encrypted (S.withSend [] false) t R k ivS ivR ops sent hdig hne hfl hs
+
 /-- **typed_put_any_length** (with C14's `int_char_frames_fit` / `Fits`): a frame whose payload
     is within the typed layer's per-mode bound (`MaxFrameSize`, minus 32 bytes of AES-GCM room on an
     encrypting stream) is always accepted by `sendMessageWithEnd` — so the typed layer's own
@@ -179,6 +212,29 @@ theorem typed_frame_accepted (s : Stream) (data : Bytes) (flag : Nat)
         split <;> omega
       rw [if_neg h2, if_neg hctr]
       exact ⟨_, _, rfl⟩
+
+/-- **typed_strbytes_any_length**: `PutStringBytes` of a NUL-free string of ANY length — the branch
+    for strings that fit a frame and the ≥ 1 MiB branch that writes the length prefix, streams the
+    bytes and then the NUL through two `PutBytes` calls — puts exactly the reference encoding on the
+    wire (on an encrypting stream: 8-byte length = len+1, the bytes, the NUL), after whatever was
+    buffered, however the frames are cut. -/
+theorem typed_strbytes_any_length (enc : Bool) (buf s : Bytes) (hnz : ∀ b ∈ s, b ≠ 0) (hlen : s.length + 1 < 2^64) :
+    wireBytes (putStringBytes enc buf s) = buf ++ Spec.enc enc (.str s) :=
+  wireBytes_putStringBytes enc buf s hnz hlen
+
+/-- **typed_bytes_any_length**: `PutBytes` of any length (split across frames above the frame
+    payload limit) puts exactly the bytes on the wire after whatever was buffered. -/
+theorem typed_bytes_any_length (enc : Bool) (buf data : Bytes) :
+    wireBytes (putBytes enc buf data) = buf ++ data :=
+  wireBytes_putBytes enc buf data
+
+/-- **typed_rest_any_length**: `GetRemainingBytes` returns exactly the bytes of the message not yet
+    consumed — any number of them, in any cut into frames (empty frames included) — and leaves the
+    message exhausted; a connection that ends before the end-of-message frame is an error. -/
+theorem typed_rest_any_length (d : Dec) :
+    (∀ B, d.pending = some B → ∃ d', d.getRemaining = .ok (B, d') ∧ d'.pending = some []) ∧
+    (d.pending = none → d.getRemaining = .error .eof) :=
+  ⟨fun B h => getRemaining_spec d B h, getRemaining_truncated d⟩
 
 /-! Non-vacuity (tests, not the claim): the band around the limit. -/
 example : ((({} : Stream).setKey 1 ⟨0, []⟩).sendFrame (List.replicate 10 0) 1).isOk = true := by decide
@@ -251,5 +307,38 @@ theorem incremental_equals_complete (s s1 : Stream) (w w' : List WireFrame) (msg
     have h2 : ¬ ({ s2 with bytesRead := msg.length } : Stream).bytesRead < ({ s2 with bytesRead := msg.length } : Stream).totalMsg := by
       simp [s2]
     rw [if_neg h1, if_neg h2]
+
+-- non-vacuity (tests): three buffered messages (two writes; no write at all; one write) are accepted
+-- and delivered as three messages, plain and encrypted
+example : (match ({} : Stream).sendBufferedAll [[[1, 2], [3]], [], [[9]]] with
+    | .ok (_, fs) => Stream.deliver {} fs
+    | .error _ => []) = [[1, 2, 3], [], [9]] := by decide
+example : (match (({} : Stream).setKey 7 ⟨5, [1]⟩).sendBufferedAll [[[1, 2], [3]], [], [[9]]] with
+    | .ok (_, fs) => Stream.deliver (({} : Stream).setKey 7 ⟨6, [2]⟩) fs
+    | .error _ => []) = [[1, 2, 3], [], [9]] := by decide
+
+/-- **buffered_incremental_plain**: the buffered writer composed with the incremental receive API.
+    The frames of ONE buffered message (`StartMessage`, any writes, `EndMessage`; plaintext), read
+    by `StartMessageRead`, `ReadMessageBytes(n)` until end-of-message and `EndMessageRead`, yield
+    exactly the concatenation of the writes, for every chunk size `n`. -/
+theorem buffered_incremental_plain (S S' R : Stream) (ws : List Bytes) (sent : List WireFrame) (n : Nat)
+    (hn : 0 < n) (hS : S.crypting = false) (hR : R.crypting = false)
+    (hclean : R.inMessage = false) (hb : R.recvBuf = [])
+    (hsend : S.sendBuffered ws = .ok (S', sent)) :
+    ∃ rest r2 r3 r4, R.startMessageRead sent = .ok (r2, rest) ∧
+      readLoop (ws.flatten.length + 1) r2 n [] = .ok (r3, ws.flatten) ∧ r3.endMessageRead = .ok r4 := by
+  obtain ⟨ops, t, hfl, hs, _, hm⟩ := sendBuffered_spec ws S S' sent hsend
+  have hc : (S.withSend [] false).crypting = false := by
+    simpa [Stream.crypting, Stream.withSend] using hS
+  obtain ⟨r', hchain⟩ := plain_chain ops (S.withSend [] false) t R sent hc hR hfl hs
+  have hm' : messagesOf [] ops = [ws.flatten] := by simpa [messagesOf] using hm []
+  rcases recvCompleteAux_chain hchain [] with ⟨r1, msg, rest, ops2, hok, hmsg, _, _⟩ | ⟨_, hnone⟩
+  · rw [hm'] at hmsg
+    simp only [List.cons.injEq] at hmsg
+    obtain ⟨rfl, _⟩ := hmsg
+    obtain ⟨s2, s3, s4, h1, h2, h3, _⟩ :=
+      incremental_equals_complete R r1 sent rest ws.flatten n hn hclean hb hok
+    exact ⟨rest, s2, s3, s4, h1, h2, h3⟩
+  · rw [hm'] at hnone; cases hnone
 
 end Cedar.C01
